@@ -35,7 +35,8 @@ SIGNED_INT = {"spif_memidx_t", "spif_stridx_t", "spif_ustridx_t", "spif_listidx_
               "short", "spif_int64_t", "spif_int16_t", "spif_int8_t"}
 UNSIGNED_INT = {"size_t", "unsigned long", "unsigned short", "unsigned char", "unsigned int", "spif_uint8_t", "spif_uint32_t",
                 "spif_sockport_t", "spif_uint16_t", "spif_uint64_t"}
-VLETTER = {"mid": "m", "zero": "z", "neg": "n", "allnull": "a", "nullslots": "s", "prelude": "p"}
+VLETTER = {"mid": "m", "zero": "z", "neg": "n", "allnull": "a", "nullslots": "s", "prelude": "p", "count": "c", "beyond": "b", "empties": "e"}
+INDEX_TYPES = ("spif_listidx_t", "spif_stridx_t", "spif_ustridx_t", "spif_memidx_t")
 
 
 def int_kind(t, n):
@@ -58,6 +59,10 @@ def variants_of(row):
         v.append("nullslots")
     if row.get("retchars"):
         v.append("prelude")
+    if row.get("nidx", 0) > 0:
+        v += ["count", "beyond"]
+    if row.get("hasempty"):
+        v.append("empties")
     return v
 
 
@@ -146,11 +151,17 @@ def gen_case(row, variant="mid"):
     nulls = set()
     if variant == "nullslots":
         lines.append("    ng_nullslots = 1;")
+    if variant == "empties":
+        lines.append("    ng_empties = 1;")
+    has_container = any(t in ("spif_array_t", "spif_linked_list_t", "spif_dlinked_list_t", "spif_list_t") for t, n in ps)
+    count = 3 if has_container else 10         # elements of the factory lists / bytes of the factory strings and buffers
     for k, (t, n) in enumerate(ps):
         ik = int_kind(raw[k][0], n)
         if k == row["pos"] or (variant == "allnull" and ik is None and is_pointer_type(t)):
             val = "(%s) NULL" % t
             nulls.add(k)
+        elif variant in ("count", "beyond") and re.sub(r"\b(register|const)\s+", "", raw[k][0]).strip() in INDEX_TYPES:
+            val = str(count if variant == "count" else count + 2)
         elif variant == "zero" and ik:
             val = "0"
         elif variant == "neg" and ik == "s":
@@ -225,9 +236,9 @@ def load_table():
     if n != len(rows):
         raise Broken("NullGuardTable.tla has %d rows, its JSON twin %d" % (n, len(rows)))
     for r in rows:
-        if '[id |-> %d, key |-> "%s", fail |-> "%s", claimed |-> %s, guard |-> "%s", nint |-> %d, nsigned |-> %d, allnull |-> "%s", retchars |-> %s, haslist |-> %s]' % (
+        if '[id |-> %d, key |-> "%s", fail |-> "%s", claimed |-> %s, guard |-> "%s", nint |-> %d, nsigned |-> %d, allnull |-> "%s", retchars |-> %s, haslist |-> %s, nidx |-> %d, hasempty |-> %s]' % (
                 r["id"], r["key"], r["fail"] or "NONE", "TRUE" if r["claimed"] else "FALSE", (r["guard"] or "none").split(" ")[0], r["nint"], r["nsigned"],
-                r["allnull"] or "NONE", "TRUE" if r["retchars"] else "FALSE", "TRUE" if r["haslist"] else "FALSE") not in twin:
+                r["allnull"] or "NONE", "TRUE" if r["retchars"] else "FALSE", "TRUE" if r["haslist"] else "FALSE", r["nidx"], "TRUE" if r["hasempty"] else "FALSE") not in twin:
             raise Broken("row %d (%s) differs between NullGuardTable.tla and its JSON twin" % (r["id"], r["key"]))
     return rows
 
@@ -395,7 +406,7 @@ def run(ctx):
             raise Broken("case %s at level %d does not repeat: %s / %s" % (byid[e["row"]]["key"], e["level"], describe(e), describe(e2)))
         row = byid[e["row"]]
         vtag = {"mid": "", "zero": " ints=0", "neg": " ints=-1", "allnull": " all-pointers-NULL", "nullslots": " lists-with-NULL-slot",
-                "prelude": " after-a-valid-call"}[e["variant"]]
+                "prelude": " after-a-valid-call", "count": " idx=count", "beyond": " idx>count", "empties": " others-empty"}[e["variant"]]
         vtag += env_class(e["env"])
         key = "%s%s level%s %s" % (row["key"], vtag, "=0" if e["level"] == 0 else (">=1" if e["level"] == 1 else ">=2"), failure_class(e, row))
         what = ("%s (%s, owner %s) with NULL for parameter %d '%s'%s at runtime level %d: %s; contract: %s%s. %s" % (
